@@ -4,7 +4,7 @@ RULE = ("connected multigraphs x divisors (several indebted vertices, ties for t
         "w.r.t. a forced sink; non-trivial = distinct (graph, divisor) whose reduction needs at least one borrow or set-firing (input is not already reduced).")
 EXPLANATION = ("q_reduction(D) and EWD(D)[1] must equal the model's reduced divisor for some minimum-degree sink (canonical by theorem C02_unique); "
                "(D, D - L sigma) reduced w.r.t. the same q must coincide with the model; is_q_reduced is compared with the verified decision procedure reduced_b")
-TWO_STAGE = False
+TWO_STAGE = True
 
 def gen(rng, tier):
     cases = []
@@ -14,7 +14,10 @@ def gen(rng, tier):
         n = G["n"]; D = common.random_divisor(rng, G)
         if rng.random() < 0.08 and G["edges"]: G, D = common.scale_game(rng, G, D); fam = fam + "*2^k"
         sigma = [rng.randint(-3, 3) if rng.random() < 0.7 else rng.randint(-40, 40) for _ in range(n)]
-        cases.append({"G": G, "D": D, "sigma": sigma, "q": rng.randrange(n), "fam": fam, "s": rng.randrange(1 << 30)})
+        c = {"G": G, "D": D, "sigma": sigma, "q": rng.randrange(n), "fam": fam, "s": rng.randrange(1 << 30)}
+        if n >= 2 and rng.random() < 0.3:      # history on ONE divisor object: reduced, moved (lend / borrow / transfer), reduced again
+            c["moves"] = [[rng.choice([0, 1, 2]), rng.randrange(n), rng.randrange(n), rng.randint(1, 4)] for _ in range(rng.randint(1, 3))]
+        cases.append(c)
     if tier == "thorough":
         import itertools
         for n in (2, 3):
@@ -35,13 +38,22 @@ def impl(c):
     d = common.build_impl_divisor(G, D, rng=rng); out["isqr"] = bool(is_q_reduced(d))
     E = common.lap_apply(G, D, c["sigma"])
     out["pairD"] = common.impl_reduce_q(G, D, c["q"], rng)[0]; out["pairE"] = common.impl_reduce_q(G, E, c["q"], rng)[0]
+    if c.get("moves"):
+        names = G["names"]; e = common.build_impl_divisor(G, D, rng=rng); q_reduction(e)
+        for k, a, b, amt in c["moves"]:
+            if k == 0: e.lending_move(names[a])
+            elif k == 1: e.borrowing_move(names[a])
+            elif a != b: e.chip_transfer(names[a], names[b], amt)
+        out["D2"] = common.div_to_list(G, e); out["qr2"] = common.div_to_list(G, q_reduction(e))
     return out
 
-def model_lines(c):
+def model_lines(c, r=None):
     g = common.enc_graph(c["G"]); D = c["D"]
     ls = [["ewdq"] + g + [c["q"]] + common.enc_list(D)]
     for q in common.min_vertices(D):
         ls.append(["ewdq"] + g + [q] + common.enc_list(D)); ls.append(["reducedb"] + g + [q] + common.enc_list(D))
+    if r and "ok" in r and isinstance(r["ok"].get("D2"), list):
+        for q in common.min_vertices(r["ok"]["D2"]): ls.append(["ewdq"] + g + [q] + common.enc_list(r["ok"]["D2"]))
     return ls
 
 def _R(line, n):  # "b n r.. k burn.."
@@ -67,6 +79,10 @@ def judge(c, r, mo):
         out.append({"what": "is_q_reduced returned True on a divisor that is not q-reduced (for any minimum-degree sink)", "key": "is_q_reduced_true_on_unreduced"})
     if (not o["isqr"]) and all(redb.values()):
         out.append({"what": "is_q_reduced returned False on a divisor that is q-reduced"})
+    if isinstance(o.get("D2"), list):
+        base = 1 + 2 * len(mins); c2 = [_R(line, n) for line in mo[base:]]
+        if c2 and o["qr2"] not in c2:
+            out.append({"what": "the same divisor object reduced again after moves (now %s): q_reduction returned %s, the q-reduced representatives w.r.t. its minimum-degree sinks are %s" % (o["D2"], o["qr2"], c2)})
     return out
 
 def oracle(c, r):
@@ -84,6 +100,8 @@ def oracle(c, r):
     if o["ewd_b"] != truth: why.append("verdict %s, truth %s" % (o["ewd_b"], truth))
     isr = any(O.is_reduced(m, D, q) for q in common.min_vertices(D))
     if o["isqr"] != isr: why.append("is_q_reduced=%s but D %s q-reduced" % (o["isqr"], "is" if isr else "is not"))
+    if isinstance(o.get("D2"), list) and isinstance(o.get("qr2"), list):
+        if not O.lin_equiv(m, o["D2"], o["qr2"]) or not any(O.is_reduced(m, o["qr2"], q) for q in common.min_vertices(o["D2"])): why.append("second reduction of the same object: %s is not the reduced form of %s" % (o["qr2"], o["D2"]))
     return {"violates": bool(why), "why": why}
 
 def nontrivial(cases):
